@@ -144,7 +144,7 @@ def run(ctx):
     os.unlink(texts)
 
     # 3. V: recorded executions validated by TLC
-    files = ctx.record(rec, ctx.pick(12, 48), ctx.pick(5000, 40000), "V/Calendar")
+    files = ctx.record(rec, ctx.pick(10, 48), ctx.pick(4000, 40000), "V/Calendar")
     if files:
         with open(files[0]) as f:
             tsamples += [ln.strip()[:300] for ln in f.readlines()[1:4]]
